@@ -237,6 +237,10 @@ def cases(thorough, seed):
                             out.append(("rootfinder", m, P, ft, xt, None, oo))
                         if fam != "const":
                             out.append(("rootfinder", m, P, ft, xt, 2, o))       # budget too small: must warn or meet the tolerance
+                        # options that switch code paths of the quasi-Newton updates (limited memory with restarts, SVD start, damping)
+                        if m in ("broyden1", "broyden2") and ft is None and fam in ("tanh-weak", "tanh-strong", "linear", "logdom"):
+                            for extra in ({"max_rank": 1}, {"max_rank": 2}, {"alpha": -0.5}) + (({"uv0": "svd"},) if not dtype.is_complex else ()):
+                                out.append(("rootfinder", m, P, ft, xt, None, dict(o, **extra)))
                     if not dtype.is_complex:
                         out.append(("equilibrium", "anderson_acc", P, ft, xt, None, {}))
                         out.append(("equilibrium", "anderson_acc", P, ft, xt, 3, {}))
